@@ -7,6 +7,7 @@ import (
 	"os"
 	"runtime/debug"
 	"strings"
+	"sync/atomic"
 	"testing"
 	"testing/synctest"
 	"time"
@@ -59,13 +60,17 @@ func RunTest(t *testing.T) {
 			continue
 		}
 		toks := strings.Fields(line)
-		res := Bubble(t, 120*time.Second, func(t *testing.T) string { return runFn(t, toks) })
+		res := Bubble(t, 40*time.Second, func(t *testing.T) string { return runFn(t, toks) })
 		hx.Emit("%s | %s", line, res)
 		hx.Flush()
 	}
 	hx.St.Dump()
 	hx.Flush()
 }
+
+// Partial, when set by a scenario, returns what has been logged so far; it is appended to a HANG outcome
+// so that a scenario that never finishes still shows where it was.
+var Partial atomic.Pointer[func() string]
 
 // Bubble runs f in a synctest bubble; a panic (including synctest's deadlock panic) or a real-time
 // deadline is an outcome, not a crash.
@@ -90,6 +95,16 @@ func Bubble(t *testing.T, realDeadline time.Duration, f func(t *testing.T) strin
 	case r := <-ch:
 		return r
 	case <-time.After(realDeadline):
+		if p := Partial.Load(); p != nil {
+			s := (*p)()
+			if f := os.Getenv("VERIF_HANGLOG"); f != "" {
+				os.WriteFile(f, []byte(s), 0o644)
+			}
+			if len(s) > 6000 {
+				s = s[len(s)-6000:]
+			}
+			return "HANG tail: " + s
+		}
 		return "HANG"
 	}
 }
